@@ -1,6 +1,6 @@
 (* C18 — CloudEvents output is well-formed and, where required, verifiably signed. *)
 From Coq Require Import List NArith.
-From Verif Require Import Alist Base64 Json JsonProofs Formatters CloudEvents CloudEventsProofs FormatsExamples.
+From Verif Require Import Alist Base64 Json JsonProofs Formatters CloudEvents CloudEventsProofs FormatsExamples Run_CloudEvents RunCloudEventsSound.
 Import ListNotations.
 Open Scope N_scope.
 
@@ -136,6 +136,41 @@ Theorem C18_ce_fresh_ids_distinct_partial : forall (P : Type) (p_id : P -> optio
   NoDup stream -> NoDup (process_all p_id c evs stream).
 Proof. exact ce_fresh_ids_distinct_partial. Qed.
 Print Assumptions C18_ce_fresh_ids_distinct_partial.
+
+(* ---- the tie: what the correspondence check's verdict means ---- *)
+
+(* The check evaluates [Run_CloudEvents.mismatches] and is green exactly when it is [].  That holds iff every case is
+   accepted: a Process case's observation is CloudEvents.process on its inputs (error, forwarding, the document's bytes, the
+   other entries, the signer's inputs), type/time/payload untouched, the stored value parses to an object with the members
+   C18 requires ([fields_decl]), carries serialized / serialized_hmac exactly when a signer is configured and the type listed
+   — serialized base64url-decoding to the signer's one input, which parses to the stored document minus the signature
+   ([ser_decl]) —, an error not the predicate's left the table as it was, the re-read document is the stored one; every
+   step of a history on one node is accepted under the signer in force and every Rotate result is the model's; fresh ids
+   are non-empty and distinct.  (The indentation oracle stays the boolean [indent_ok]; the duplicate / panic counts of the
+   concurrent part and the instant check of the time member are computed by the harness.) *)
+Theorem C18_verdict_is_model_execution : forall cs,
+  Run_CloudEvents.mismatches cs = [] <-> Forall RunCloudEventsSound.case_accepted cs.
+Proof. exact RunCloudEventsSound.mismatches_nil_iff. Qed.
+Print Assumptions C18_verdict_is_model_execution.
+
+(* what acceptance gives on the observations themselves *)
+Theorem C18_accepted_signed : forall c,
+  ce_accepted c -> b_err (k_obs c) = false -> k_signer (k_cfg c) <> 0 -> In (k_type c) (k_types (k_cfg c)) ->
+  exists b ms s u, tget (ce_key c) (b_table (k_obs c)) = Some b /\ parse_doc b = Some (JObj ms) /\
+    mget s_serialized ms = Some (JStr s) /\ b_calls (k_obs c) = [u] /\ Base64.decode s = Some u /\
+    parse_doc u = Some (JObj (drop_sig ms)).
+Proof. exact accepted_signed. Qed.
+Print Assumptions C18_accepted_signed.
+Theorem C18_accepted_unsigned : forall c,
+  ce_accepted c -> b_err (k_obs c) = false -> (k_signer (k_cfg c) = 0 \/ ~ In (k_type c) (k_types (k_cfg c))) ->
+  exists b ms, tget (ce_key c) (b_table (k_obs c)) = Some b /\ parse_doc b = Some (JObj ms) /\
+    mget s_serialized ms = None /\ mget s_serialized_hmac ms = None /\ b_calls (k_obs c) = [].
+Proof. exact accepted_unsigned. Qed.
+Print Assumptions C18_accepted_unsigned.
+Theorem C18_accepted_error_frame : forall c,
+  ce_accepted c -> b_err (k_obs c) = true -> b_pred_err (k_obs c) = false -> b_table (k_obs c) = k_pre c.
+Proof. exact accepted_error_frame. Qed.
+Print Assumptions C18_accepted_error_frame.
 
 (* non-vacuity: a valid text-format configuration with a signer and a listed type, a nested payload without ID(), forwarded *)
 Theorem C18_nonvacuous :
